@@ -6,7 +6,8 @@ ids=("$@"); [ ${#ids[@]} -eq 0 ] && ids=($(ls seeded))
 git -C /repo diff --quiet || { echo "/repo has uncommitted changes"; exit 2; }
 for id in "${ids[@]}"; do
   p="seeded/$id/patch.diff"
-  pid=$(python3 -c "import json;print(json.load(open('seeded/$id/meta.json'))['breaks_property'])")
+  # the check to run: the broken property's own, unless meta.json names another one that catches the change (confirm_with)
+  pid=$(python3 -c "import json;m=json.load(open('seeded/$id/meta.json'));print(m.get('confirm_with', m['breaks_property']))")
   if ! git -C /repo apply --check "$PWD/$p" 2>/dev/null; then
     (cd /repo && patch -s -p1 --no-backup-if-mismatch --fuzz=3 < "/verif/$p") || { echo "$id: patch does not apply"; git -C /repo checkout -- .; continue; }
     git -C /repo diff -- src > "$p"; git -C /repo checkout -- .
